@@ -38,6 +38,20 @@ def float_eq(ctx, a, b):
 
 
 def h_codec(ctx, twin=False):
+    """octet-level clauses; the float sign branch of _calculate_date_time (subject of the 'views' case) is replaced by a
+    branch-free recorder for the duration of this case so that no floating-point feasibility query is needed here"""
+    if not ctx.symbolic:
+        return _h_codec(ctx, twin)
+    from symx.timestub import OpaqueDT
+    orig = CdsShortTimestamp._calculate_date_time
+    CdsShortTimestamp._calculate_date_time = lambda self: setattr(self, "_datetime", OpaqueDT(self._unix_seconds, "branch-free recorder"))
+    try:
+        return _h_codec(ctx, twin)
+    finally:
+        CdsShortTimestamp._calculate_date_time = orig
+
+
+def _h_codec(ctx, twin=False):
     days, ms = ctx.int("days", 0, 65535), ctx.int("ms", 0, (1 << 32) - 1)
     t = CdsShortTimestamp(days, ms)
     raw = t.pack()
@@ -53,6 +67,15 @@ def h_codec(ctx, twin=False):
     e.read_from_raw(raw)
     ctx.holds("read_from_raw", sym_and(e.ccsds_days == days, e.ms_of_day == ms))
     ctx.holds("repack identical", u.pack() == raw)
+    pack_hands_out_fresh_buffers(ctx, t.pack, ref)
+    # a packed stamp handed out earlier keeps its octets when the same object is updated and packed again
+    kept = t.pack()
+    snapshot = ctx.bytes_of(items_of(kept))
+    d2, ms2 = ctx.int("days2", 0, 65535), ctx.int("ms2", 0, (1 << 32) - 1)
+    t.read_from_raw(ctx.bytes_of([0x40] + be(d2, 2) + be(ms2, 4)))
+    again = t.pack()
+    ctx.holds("pack after read_from_raw == new values", again == ctx.bytes_of([0x40] + be(d2, 2) + be(ms2, 4)))
+    ctx.holds("an earlier pack() result is not rewritten by later packs", kept == snapshot)
     if twin:
         ctx.holds("twin", raw != ref)
 
@@ -103,14 +126,19 @@ def mk_timedelta(ctx, d, s, us):
     return datetime.timedelta(days=d, seconds=s, microseconds=us)
 
 
-def h_add(ctx, dmax):
+def h_add(ctx, dmax, lazy):
+    """lazy: the stamp is created with init_dt_unix_stamp=False (views not computed at construction)"""
     days, ms = ctx.int("days", 0, 65535), ctx.int("ms", 0, MS_DAY - 1)
     d, s, us = ctx.int("td_days", 0, dmax), ctx.int("td_seconds", 0, 86399), ctx.int("td_us", 0, 999999)
     t = CdsShortTimestamp(days, ms, init_dt_unix_stamp=False)
-    # the float views are the subject of the 'views' case (any (days, ms)); here _setup is replaced by a recorder so that
-    # the carry arithmetic is decided in pure integer arithmetic, and we check that __add__ refreshes the views at the end
-    seen = []
-    t._setup = lambda: seen.append((t.ccsds_days, t.ms_of_day))
+    # The sign branch inside _calculate_date_time is a floating-point comparison whose feasibility queries dominate the run
+    # time and are the subject of the 'views' case (any (days, ms)); here it is replaced by a branch-free recorder of the
+    # float it would hand to C, so that the carry arithmetic and the refresh of the views are decided quickly.
+    if ctx.symbolic:
+        from symx.timestub import OpaqueDT
+        t._calculate_date_time = lambda: setattr(t, "_datetime", OpaqueDT(t._unix_seconds, "branch-free recorder"))
+    if not lazy:
+        t._setup()
     total = ms + s * 1000 + us // 1000
     want_days = days + d + total // MS_DAY
     want_ms = total % MS_DAY
@@ -125,7 +153,19 @@ def h_add(ctx, dmax):
     ctx.holds("sum == integer arithmetic on total milliseconds", sym_and(r.ccsds_days == want_days, r.ms_of_day == want_ms),
               "days/ms")
     ctx.holds("normalised: ms_of_day < 86400000", r.ms_of_day < MS_DAY)
-    ctx.holds("views are recomputed from the final state", len(seen) >= 1 and sym_and(seen[-1][0] == want_days, seen[-1][1] == want_ms))
+    ctx.holds("unix-seconds view follows the sum", float_eq(ctx, r.as_unix_seconds(), ref_unix_seconds(r.ccsds_days, r.ms_of_day)))
+    dt = r.as_datetime()
+    if ctx.symbolic:
+        secs = getattr(dt, "unix_seconds", None)
+        if secs is not None:
+            ctx.holds("datetime view follows the sum", float_eq(ctx, secs, ref_unix_seconds(r.ccsds_days, r.ms_of_day)))
+        else:
+            tus = getattr(dt, "total_us", None)
+            ctx.holds("datetime view follows the sum", tus is not None and (
+                tus == ((r.ccsds_days - 4383) * 86400 * 10 ** 6 + r.ms_of_day * 1000)), "integer datetime view")
+    else:
+        want = datetime.datetime(1958, 1, 1, tzinfo=UTC) + datetime.timedelta(days=int(r.ccsds_days), milliseconds=int(r.ms_of_day))
+        ctx.holds("datetime view follows the sum", abs((dt - want).total_seconds()) < 0.0005, "%s vs %s" % (dt, want))
 
 
 def mk_datetime(ctx, d, s, u):
@@ -160,8 +200,11 @@ def cases(tier):
                        must_reach=["reach:refused", "reach:accepted"] if n >= 7 else []))
     cs.append(Case("views", "views", h_views, {}, bounds="all days 0..65535, all ms 0..86399999"))
     for dmax in tier_pick(tier, (0, 70000), (0, 1, 70000)):
-        cs.append(Case("add-dmax%d" % dmax, "add", h_add, dict(dmax=dmax), budget=1500, must_reach=["reach:returned"],
-                       bounds="all timestamps, timedelta days 0..%d, seconds 0..86399, microseconds 0..999999" % dmax))
+        for lazy in (False, True):
+            cs.append(Case("add-dmax%d%s" % (dmax, "-lazy" if lazy else ""), "add", h_add, dict(dmax=dmax, lazy=lazy), budget=1500,
+                           must_reach=["reach:returned"],
+                           bounds="all timestamps (%s), timedelta days 0..%d, seconds 0..86399, microseconds 0..999999" % (
+                               "created with init_dt_unix_stamp=False" if lazy else "views initialised", dmax)))
     regions = [("pre1970-day", 4382, 4382), ("epoch-day", 4383, 4383), ("pre1970", 0, 4382), ("post1970", 4383, 65535), ("all", 0, 65535)]
     for name, lo, hi in regions:
         for whole in (True, False):
